@@ -56,18 +56,20 @@ def story_item_parts(tier, mon, *, timing_variants=True, small=False, mixed=True
             parts.append(live_part(tier, mon))
     else:
         parts = [
-            {'label': 'stories-pool6-cap5-L2', 'harness': HStory(pool=6, cap=5, max_list=2, layouts=('before', 'after', 'none')),
+            {'label': 'stories-pool6-cap5-L2', 'harness': HStory(pool=6, cap=5, max_list=2, layouts=('before', 'after')),
              'monitors': mon},
-            {'label': 'stories-pool5-cap4-L3', 'harness': HStory(pool=5, cap=4, max_list=3, layouts=('before', 'between')),
+            {'label': 'stories-pool5-cap4-L3', 'harness': HStory(pool=5, cap=4, max_list=3, layouts=('before',)),
+             'monitors': mon},
+            {'label': 'stories-between-pool5-cap4-L2', 'harness': HStory(pool=5, cap=4, max_list=2, layouts=('between',), nmeta=2),
              'monitors': mon},
             {'label': 'items-pool6-cap5-L2', 'harness': HItem(pool=6, cap=5, max_list=2, patterns=('plain',)), 'monitors': mon},
-            {'label': 'items-pool5-cap4-L3', 'harness': HItem(pool=5, cap=4, max_list=3, patterns=('plain',)), 'monitors': mon},
-            {'label': 'items-interleaved-pool5-cap4-L2', 'harness': HItem(pool=5, cap=4, max_list=2, patterns=('p-between', 'foreign')),
+            {'label': 'items-pool5-cap4-L3', 'harness': HItem(pool=5, cap=4, max_list=3, patterns=('plain',), positions=('second',)), 'monitors': mon},
+            {'label': 'items-interleaved-pool5-cap4-L2', 'harness': HItem(pool=5, cap=4, max_list=2, patterns=('p-between',), positions=('second',)),
              'monitors': mon},
         ]
         if timing_variants:
             parts.append({'label': 'stories-no-timing-metadata',
-                          'harness': HStory(pool=5, cap=4, max_list=2, layouts=('before', 'between'), timing=MIXED_TIMING),
+                          'harness': HStory(pool=5, cap=4, max_list=2, layouts=('before',), timing=MIXED_TIMING),
                           'monitors': mon})
             parts.append({'label': 'items-no-timing-metadata',
                           'harness': HItem(pool=4, cap=3, max_list=2, patterns=('plain',), timing='nometa'), 'monitors': mon})
